@@ -1227,7 +1227,7 @@ func init() {
 	b64 := func(in *Interp, fn *ssa.Function, a []Value, c *frame, s ssa.Instruction) (Value, bool) {
 		// yq only uses base64.StdEncoding (contract: the opaque Encoding object is the standard one)
 		if !allConcrete(a[1:]) {
-			unsup("base64 on symbolic data")
+			return nil, false // symbolic data: the package's own SSA runs (encoding/base64 is in the interpreted set)
 		}
 		m := reflect.ValueOf(base64.StdEncoding).MethodByName(fn.Name())
 		if !m.IsValid() {
